@@ -282,6 +282,14 @@ func genC01(r *Rng, e *Emitter, n int) {
 		c04Run(e, c, [4]int{0, -1, -1, -1}, b)
 	}
 	wkbcommon.MaxGeometryElements = saved
+	// the IGC decoder too: whatever it returns (also next to record errors) is a whole number of
+	// five-dimensional fixes
+	if re, ok := hRegexpFromSource(); ok {
+		for i := 0; i < n/40+20; i++ {
+			e.tally("decoded-igc")
+			c19EmitDec(e, re, r.igcDoc())
+		}
+	}
 	for _, bc := range bigCases(n >= 100000) {
 		stride, pts := bc[0], bc[1]
 		l := layoutForStride(stride)
